@@ -1919,7 +1919,9 @@ impl TransactionBuilder {
             Some(Ordering::Less) => Err(JsError::from_str("Insufficient input in transaction")),
             Some(Ordering::Greater) => {
                 fn has_assets(ma: Option<MultiAsset>) -> bool {
-                    ma.map(|assets| assets.len() > 0).unwrap_or(false)
+                    // a bundle counts only if it holds a positive quantity (an empty policy or a zero quantity is no asset change)
+                    ma.map(|assets| assets.partial_cmp(&MultiAsset::new()) == Some(Ordering::Greater))
+                        .unwrap_or(false)
                 }
                 let change_estimator = input_total.checked_sub(&output_total)?;
                 if has_assets(change_estimator.multiasset()) {
